@@ -234,7 +234,9 @@ def run_check(modname, tier, seed, nproc=None):
     total = Result()
     walls = []
     ctx = mp.get_context("spawn")
-    with ctx.Pool(nproc, initializer=_worker_init, maxtasksperchild=None) as pool:
+    # checks about process-wide state ask for a fresh interpreter per shard
+    per_child = 1 if getattr(mod, "FRESH_PROCESS_PER_SHARD", False) else None
+    with ctx.Pool(nproc, initializer=_worker_init, maxtasksperchild=per_child) as pool:
         for d in pool.imap_unordered(_run_one, [(modname, s) for s in shards], chunksize=1):
             total.merge(d)
             walls.append((d["wall"], d["shard"]))
